@@ -130,6 +130,13 @@ var concatInterp = ast.InterpreterFunc(func(userCtx interface{}, node parsley.No
 	return sb.String(), nil
 })
 
+// prebuiltErr: a positioned parsley.Error value created when the grammar is constructed.
+// NewError hands an existing parsley.Error back unchanged, so this one object sits in
+// the shared graph and is returned to every run whose alternative fails.
+func prebuiltErr(name string) error {
+	return parsley.NewErrorf(parsley.NilPos, "was expecting %s (custom)", strings.TrimPrefix(name, "!"))
+}
+
 func build(g *Grammar, o *buildOpts) *built {
 	n := len(g.Nodes)
 	b := &built{Slots: make([]*slot, n)}
@@ -239,10 +246,15 @@ func build(g *Grammar, o *buildOpts) *built {
 			if o.Interp && nd.Op != "sentence" {
 				seq = seq.Bind(concatInterp)
 			}
-			if nd.Name != "" {
+			if nd.Name != "" && !strings.HasPrefix(nd.Name, "!") {
 				seq = seq.Name(nd.Name)
 			}
 			p = seq
+			if strings.HasPrefix(nd.Name, "!") {
+				p = parser.ReturnError(p, prebuiltErr(nd.Name))
+			}
+		} else if strings.HasPrefix(nd.Name, "!") {
+			p = parser.ReturnError(p, prebuiltErr(nd.Name))
 		} else if nd.Name != "" {
 			p = parser.ReturnError(p, parsley.NotFoundError(nd.Name))
 		}
@@ -513,6 +525,9 @@ func (x *gen) node(depth int) int {
 		}
 		if x.o.Names && r.Chance(1, 5) {
 			n.Name = fmt.Sprintf("n%d", idx)
+			if r.Chance(1, 4) {
+				n.Name = "!" + n.Name // a pre-built positioned custom error
+			}
 		}
 	}
 	if r.Chance(x.o.MemoChance, 100) {
